@@ -8,7 +8,7 @@ from harness.descr import data_coq, ty_coq, value_coq
 from harness.schema_coq import doc_coq, Unsupported
 
 NEEDED = ["Schema/Json.v", "Schema/Build.v", "Schema/Run.v", "Schema/Proofs.v", "Ser/Model.v", "Ser/Spec.v",
-          "Ser/RoundTripInd.v", "Schema/AgreeProofs.v", "Schema/SerAgree.v", "Schema/BuildSer.v", "Ser/ImageInv.v", "Schema/SerClassProofs.v"]
+          "Ser/RoundTripInd.v", "Schema/AgreeProofs.v", "Schema/SerAgree.v", "Schema/BuildSer.v", "Ser/ImageInv.v", "Schema/SerClassProofs.v", "Schema/SerRequired.v"]
 HEADER_EXTRA = "From AV Require Import Schema.Json Schema.Build Schema.Run.\n"
 
 
@@ -240,6 +240,23 @@ def run(tier):
     for k, e in errs:
         R.broken.append(f"coq evaluation failed (C07_hyps_classes shard {k}): {e[-300:]}")
     R.hist["cases_within_the_theorem_with_classes"] = len(ccases) - len(outside5)
+    # objects within the hypotheses of C07_required_keys_always_emitted_and_emitted_keys_declared (every class: skip options,
+    # methods, TypedDicts, exclude_* settings), with the conclusion re-evaluated on the model
+    chk = ("(fun c : " + T5 + " => let '(u, so, t, v) := c in match t with TObj cid => "
+           "if has_type u 40 t v && negb (so_excl_unset so && cd_fields_set (get_cls u cid)) then "
+           "match image u so 40 t v with SROk (VDict out) => match unembed_items out with Some ds => "
+           "negb (required_ok (map (elem_alias so) (filter (elem_required so (get_cls u cid)) (elems_of (get_cls u cid)))) (PDict ds)) "
+           "| None => false end | _ => false end else false | _ => false end)")
+    objs = [c for c in ccases]
+    hit6, errs = core.run_coq_shards(
+        "C07_required", header + "From AV Require Import Ser.Spec Ser.RoundTrip Ser.RoundTripInd Schema.BuildSer Schema.SerRequired.\n",
+        objs, "(fun c => negb (" + chk + " c))", item_type=T5, shard=300)
+    for k, e in errs:
+        R.broken.append(f"coq evaluation failed (C07_required shard {k}): {e[-300:]}")
+    for i in hit6[:3]:
+        R.broken.append("a key required by the serialization schema model is missing from the image of a well-typed object "
+                        "(C07_required_keys_always_emitted no longer describes the models): " + objs[i][:600])
+    R.hist["required_keyword_conclusions_reevaluated"] = len(objs)
     R.hist["builder_mismatches"] = len(bad4)
     # the proved fragment (C07_object_free_output_validates): on the cases within its hypotheses, the schema the theorem speaks
     # about (the builder model) is the implementation's serialization_schema, and its conclusion is re-evaluated
